@@ -16,7 +16,8 @@ Q(n) == <<n, 1>>
 QZ == <<0, 1>>
 QOne == <<1, 1>>
 QHalf == <<1, 2>>
-QAdd(a, b) == QNorm(a[1] * b[2] + b[1] * a[2], a[2] * b[2])
+\* lcm-based addition: keeps intermediate products small (32-bit integers)
+QAdd(a, b) == LET g == GCD(a[2], b[2]) IN QNorm(a[1] * (b[2] \div g) + b[1] * (a[2] \div g), (a[2] \div g) * b[2])
 QNeg(a) == <<-a[1], a[2]>>
 QSub(a, b) == QAdd(a, QNeg(b))
 QMul(a, b) == QNorm(a[1] * b[1], a[2] * b[2])
